@@ -41,6 +41,10 @@ func main() {
 	switch os.Args[1] {
 	case "c06":
 		err = h.RunC06(*cases, *trace, *stats, *seed, *thorough)
+	case "c20median":
+		err = h.RunC20Median(*cases, *trace, *stats)
+	case "c20conc":
+		err = h.RunC20Conc(*trace, *stats, *seed, *n, *blocks, *maxops, 2)
 	case "c18":
 		err = h.RunC18(*cases, *trace, *stats, *seed)
 	case "hist":
